@@ -8,7 +8,9 @@ B  vh c07: each history for 9 physical types x entry path (WriteRows, ColumnWrit
    buffer / file copy / file re-encode) x filter options (bits per value, deferred, gzip-compressed,
    prefetch) x codec x page version, chosen by the seed; every value read back from a chunk is checked
    against that chunk's filter
-V  BloomMon.tla: every check true, filter present, no error
+V  BloomMon.tla: every check true, filter present, no error; and the probe of a reader written from the format
+   document (Sbbf.tla: block index and salted masks; XXHash.tla: XXH64 over the PLAIN bytes, byte-wise 64-bit
+   arithmetic) finds every written value in the bits that lie in the file
 """
 import time
 
@@ -26,6 +28,8 @@ def run(tier, seed):
     wd = vf.scratch()
     x = vf.model_check(wd, "MC_Bloom.tla", "MC_Bloom_quick.cfg" if quick else "MC_Bloom_thorough.cfg", "X Bloom")
     vf.must_violate(wd, "MC_Bloom.tla", "MC_Bloom_asfound.cfg", "Bloom")
+    vf.require_clean(vf.tlc(wd, "SbbfTest.tla", "SbbfTest.cfg", workers=1, extra=["-noGenerateSpecTE"]),
+                     "Sbbf.tla / XXHash.tla self-checks (published XXH64 digests, block and mask arithmetic)")
     sim = vf.emit_scenarios(wd, "MC_Bloom.tla", "MC_Bloom_sim.cfg", minimum=50, simulate=150 if quick else 2500,
                             depth=8, seed=seed)
     seen, scenarios = set(), []
@@ -47,7 +51,7 @@ def run(tier, seed):
         "traces_validated_against_impl": cnt["traces"],
         "samples": [scenarios[0], scenarios[-1], ini[1]],
         "model": {"module": "Bloom.tla", "distinct_states": x.distinct},
-        "monitor": {"module": "BloomMon.tla", "events": verdict["consumed"], "checks_judged": cnt["checks"],
+        "monitor": {"module": "BloomMon.tla", "events": verdict["consumed"], "checks_judged": cnt["checks"], "format_level_probes": cnt["probes"],
                     "filters_seen": cnt["filters"], "flagged": cnt["flagged"]},
         "types": sorted({e["type"] for e in ini.values()}), "paths": sorted({e["path"] for e in ini.values()}),
         "exhaustive": False, "known_findings": sorted(out.kf_hits),
